@@ -227,6 +227,9 @@ def unparse_Constant(node: Constant, qm: typing.Literal["'", '"']) -> unparse_ge
     if isinstance(node.value, str):
         value = get_unescaped_str(node.value, qm)
         return f"{qm}{value}{qm}"
+    if isinstance(node.value, (float, complex)):
+        # repr() of an infinite float is the name `inf`, not a literal
+        return repr(node.value).replace("inf", "1e309")
     return repr(node.value)
     yield
 
